@@ -332,6 +332,9 @@ def _const_name(stmt, default):
     return default
 
 
+NARROW_TYPES = {"f4", "float32", "c8", "complex64", "i4", "i2", "i1", "int32", "int16", "int8", "u4", "u2", "u1", "uint32", "uint16", "uint8", "f2", "float16"}
+
+
 def _syntactically_negative(n):
     if isinstance(n, ast.UnaryOp) and isinstance(n.op, ast.USub):
         return not _syntactically_negative(n.operand)
@@ -543,6 +546,14 @@ def check_types(rep, proj, kernels):
         ret, params = parse_sig(f.njit_sig)
         if ret is None:
             rep.undecided("C18.types", f.site, f.fq, f"signature '{f.njit_sig}' not parsed (lazy compilation)")
+            continue
+        # the interpreter computes in Python int / float64 / complex128: a declared type of lower precision makes the compiled
+        # kernel round (or wrap) where the interpreted one does not
+        narrow = [t for t in [ret] + params if re.sub(r"\[.*\]$", "", t) in NARROW_TYPES]
+        if narrow:
+            rep.bad("C18.types", f.site, f.fq,
+                    f"declared signature '{f.njit_sig}' uses {sorted(set(narrow))}: narrower than the float64 / complex128 / int64 the interpreter computes in "
+                    "(the compiled kernel silently downcasts)", key="narrow")
             continue
         if len(params) != len(f.params):
             rep.bad("C18.types", f.site, f.fq,
